@@ -45,6 +45,7 @@ type Call struct {
 	Session string
 	OldPW   string
 	Raw     string // authenticate via api: this request body instead of the JSON of User / PW
+	Realm   string // authenticate via sasl: the realm field of the request
 
 	done        atomic.Bool
 	OK          bool
@@ -215,8 +216,20 @@ func (w *AWorld) bootAgentExisting(cfg Config, cfgPath, upgrades, policyType, po
 	return a, nil
 }
 
+// frontendIface obtains the store interface the way cmdRun does for every listener it starts:
+// by another GetInterface call (inside an adoption window, so that anything a changed tree
+// starts there is known to the scheduler).
+func (w *AWorld) frontendIface(a *Agent) *Store {
+	synctest.Wait()
+	w.sched.Adopt(a.name)
+	i := a.st.GetInterface()
+	synctest.Wait()
+	w.sched.EndAdopt()
+	return i
+}
+
 func (w *AWorld) startWeb(a *Agent) {
-	mux, err := newWebHandler(a.iface)
+	mux, err := newWebHandler(w.frontendIface(a))
 	if err != nil {
 		w.r.Fail("harness/web", "%v", err)
 	}
@@ -225,9 +238,10 @@ func (w *AWorld) startWeb(a *Agent) {
 
 func (w *AWorld) startSasl(a *Agent) {
 	a.saslPath = fmt.Sprintf("/run/whawty/%s.sock", a.name)
+	iface := w.frontendIface(a)
 	go func() {
 		w.sched.Register(a.name + ".sasl-accept") // goroutines it starts from function literals are scheduled too
-		runSaslAuthSocket(a.saslPath, a.iface)    //nolint
+		runSaslAuthSocket(a.saslPath, iface)      //nolint
 	}()
 	synctest.Wait()
 }
@@ -238,7 +252,8 @@ func (w *AWorld) startLDAP(a *Agent) {
 	if err != nil {
 		w.r.Fail("harness/ldap-listen", "%v", err)
 	}
-	go runLDAPListener(ln.(*simnet.TCPListener), &ldapConfig{}, a.iface) //nolint
+	iface := w.frontendIface(a)
+	go runLDAPListener(ln.(*simnet.TCPListener), &ldapConfig{}, iface) //nolint
 	synctest.Wait()
 }
 
@@ -310,7 +325,7 @@ func (w *AWorld) exec(c *Call) {
 			c.Err = err.Error()
 		}
 	case "sasl":
-		ok, msg, err := sasl.NewClient(a.saslPath).Auth(c.User, c.PW, "svc", "")
+		ok, msg, err := sasl.NewClient(a.saslPath).Auth(c.User, c.PW, "svc", c.Realm)
 		c.OK = ok && err == nil
 		c.Body = msg
 		if err != nil {
